@@ -4541,8 +4541,9 @@ XPath::predicates(
                     m_expression.getNumberLiteral(m_expression.getOpCodeMapValue(predOpPos + 2));
 
                 // If the index is out of range, or not an integer, just clear subQueryResults...
+                // (compare as doubles first: the value might be out of the range of size_type)
                 if (theIndex <= 0.0 ||
-                    NodeRefListBase::size_type(theIndex) > theLength ||
+                    theIndex > double(theLength) ||
                     double(NodeRefListBase::size_type(theIndex)) != theIndex)
                 {
                     subQueryResults.clear();
